@@ -344,20 +344,28 @@ impl<'a> CompilerState<'a> {
         }
     }
 
-    fn parse_identifier(&'a self, pairs: Pairs<'a, Rule>) -> Result<(String, Box<Expr>), Error> {
+    // Returns the name, the subscript and the string literals met in the subscript
+    // (numbered from first_literal)
+    fn parse_identifier(
+        &'a self,
+        pairs: Pairs<'a, Rule>,
+        first_literal: usize,
+    ) -> Result<(String, Box<Expr>, HashMap<String, String>), Error> {
         let mut p = pairs;
         let px = p.next().unwrap();
         let varname = px.as_str();
+        let mut literals = HashMap::new();
         let subscript = match p.next() {
             Some(pair) => {
-                let expr = self.parse_expr_ex(pair.into_inner())?;
+                let expr = self.parse_expr_ex(pair.into_inner(), first_literal)?;
+                literals = expr.1;
                 Box::new(expr.0)
             }
             None => Box::new(Expr::Nothing),
         };
         if varname.eq("X") || varname.eq("Y") {
             match *subscript {
-                Expr::Nothing => return Ok((varname.into(), subscript)),
+                Expr::Nothing => return Ok((varname.into(), subscript, literals)),
                 _ => {
                     return Err(self.syntax_error(
                         &format!("No subscript for {} index", varname),
@@ -370,10 +378,10 @@ impl<'a> CompilerState<'a> {
         match self.in_scope_variables.last() {
             Some(vars) => {
                 match vars.get(varname) {
-                    Some(vn) => return Ok((vn.clone(), subscript)),
+                    Some(vn) => return Ok((vn.clone(), subscript, literals)),
                     None => match self.functions.get(varname) {
                         Some(_var) => match *subscript {
-                            Expr::Nothing => Ok((varname.into(), subscript)),
+                            Expr::Nothing => Ok((varname.into(), subscript, literals)),
                             _ => Err(self
                                 .syntax_error("No subscript for functions", px.as_span().start())),
                         },
@@ -386,10 +394,10 @@ impl<'a> CompilerState<'a> {
             }
             None => {
                 match self.variables.get(varname) {
-                    Some(_var) => Ok((varname.into(), subscript)),
+                    Some(_var) => Ok((varname.into(), subscript, literals)),
                     None => match self.functions.get(varname) {
                         Some(_var) => match *subscript {
-                            Expr::Nothing => Ok((varname.into(), subscript)),
+                            Expr::Nothing => Ok((varname.into(), subscript, literals)),
                             _ => Err(self
                                 .syntax_error("No subscript for functions", px.as_span().start())),
                         },
@@ -404,7 +412,7 @@ impl<'a> CompilerState<'a> {
     }
 
     fn parse_expr(&mut self, pairs: Pairs<'a, Rule>) -> Result<Expr, Error> {
-        let res = self.parse_expr_ex(pairs)?;
+        let res = self.parse_expr_ex(pairs, self.literal_counter)?;
 
         // Create collected literal variables in memory
         self.literal_counter += res.1.len();
@@ -440,11 +448,14 @@ impl<'a> CompilerState<'a> {
         Ok(res.0)
     }
 
+    // String literals are numbered from first_literal: a nested expression continues the
+    // numbering of the enclosing one
     fn parse_expr_ex(
         &self,
         pairs: Pairs<'a, Rule>,
+        first_literal: usize,
     ) -> Result<(Expr, HashMap<String, String>), Error> {
-        let literal_counter = Rc::new(Mutex::new(self.literal_counter));
+        let literal_counter = Rc::new(Mutex::new(first_literal));
         let literal_strings = Rc::new(Mutex::new(HashMap::<String, String>::new()));
         if pairs.len() == 0 {
             let lit_strs = Rc::into_inner(literal_strings)
@@ -461,7 +472,8 @@ impl<'a> CompilerState<'a> {
                         primary.into_inner().next().unwrap(),
                     ))),
                     Rule::expr => {
-                        let res = self.parse_expr_ex(primary.into_inner())?;
+                        let first = *literal_counter.lock().unwrap();
+                        let res = self.parse_expr_ex(primary.into_inner(), first)?;
                         let mut lit_strs = literal_strings.lock().unwrap();
                         for k in &res.1 {
                             lit_strs.insert(k.0.clone(), k.1.clone());
@@ -471,7 +483,14 @@ impl<'a> CompilerState<'a> {
                         Ok(res.0)
                     }
                     Rule::identifier => {
-                        let id = self.parse_identifier(primary.into_inner())?;
+                        let first = *literal_counter.lock().unwrap();
+                        let id = self.parse_identifier(primary.into_inner(), first)?;
+                        let mut lit_strs = literal_strings.lock().unwrap();
+                        for k in &id.2 {
+                            lit_strs.insert(k.0.clone(), k.1.clone());
+                        }
+                        let mut l = literal_counter.lock().unwrap();
+                        *l += id.2.len();
                         Ok(Expr::Identifier(id.0, id.1))
                     }
                     Rule::quoted_string => {
@@ -544,7 +563,8 @@ impl<'a> CompilerState<'a> {
                 Rule::pp => Ok(Expr::PlusPlus(Box::new(lhs?), true)),
                 Rule::call => {
                     let params = if let Some(x) = op.into_inner().next() {
-                        let res = self.parse_expr_ex(x.into_inner())?;
+                        let first = *literal_counter.lock().unwrap();
+                        let res = self.parse_expr_ex(x.into_inner(), first)?;
                         let mut lit_strs = literal_strings.lock().unwrap();
                         for k in &res.1 {
                             lit_strs.insert(k.0.clone(), k.1.clone());
@@ -621,7 +641,8 @@ impl<'a> CompilerState<'a> {
                         primary.into_inner().next().unwrap(),
                     ))),
                     Rule::expr => {
-                        let res = self.parse_expr_ex(primary.into_inner())?;
+                        let first = *literal_counter.lock().unwrap();
+                        let res = self.parse_expr_ex(primary.into_inner(), first)?;
                         let mut lit_strs = literal_strings.lock().unwrap();
                         for k in &res.1 {
                             lit_strs.insert(k.0.clone(), k.1.clone());
@@ -631,7 +652,14 @@ impl<'a> CompilerState<'a> {
                         Ok(res.0)
                     }
                     Rule::identifier => {
-                        let id = self.parse_identifier(primary.into_inner())?;
+                        let first = *literal_counter.lock().unwrap();
+                        let id = self.parse_identifier(primary.into_inner(), first)?;
+                        let mut lit_strs = literal_strings.lock().unwrap();
+                        for k in &id.2 {
+                            lit_strs.insert(k.0.clone(), k.1.clone());
+                        }
+                        let mut l = literal_counter.lock().unwrap();
+                        *l += id.2.len();
                         Ok(Expr::Identifier(id.0, id.1))
                     }
                     Rule::quoted_string => {
@@ -703,7 +731,8 @@ impl<'a> CompilerState<'a> {
                 Rule::pp => Ok(Expr::PlusPlus(Box::new(lhs?), true)),
                 Rule::call => {
                     let params = if let Some(x) = op.into_inner().next() {
-                        let res = self.parse_expr_ex(x.into_inner())?;
+                        let first = *literal_counter.lock().unwrap();
+                        let res = self.parse_expr_ex(x.into_inner(), first)?;
                         let mut lit_strs = literal_strings.lock().unwrap();
                         for k in &res.1 {
                             lit_strs.insert(k.0.clone(), k.1.clone());
